@@ -95,12 +95,21 @@ var c10Residue = []string{
 	"BEGIN { a = [1]; a.length = 5; o = {}; o.pluck = 1; s = 'x'; x = match (1) { num => num, json => json } }",
 }
 
+// c10Probe: the deepest recursion the call-depth limit allows: one frame more (left behind
+// by an earlier run, or counted in state shared between runs) and it fails.
+const c10Probe = "function f(n) { if (n == 0) return 0\nreturn 1 + f(n - 1) }\n{ print f(4095) }"
+
 // VHC10Residue: a run is not influenced by earlier, unrelated runs in the same process
 // (prototype singletons, receiver bindings written into shared prototype cells, limits).
 func VHC10Residue() {
-	prog := c10Progs[vh.Choose("prog", len(c10Progs))]
-	q := c10Residue[vh.Choose("earlier", len(c10Residue))]
+	progs := append(append([]string{}, c10Progs...), c10Probe)
+	prog := progs[vh.Choose("prog", len(progs))]
+	qi := vh.Choose("earlier", len(c10Residue))
+	q := c10Residue[qi]
 	b := vh.Choose("b", 2) == 1 // concrete: the JSON text level is not modelled symbolically
+	if prog == c10Probe && (qi > 3 || b) {
+		return // the probe is expensive: four kinds of earlier run are enough for it
+	}
 	doc := map[string]any{"c": 1.0, "a": b}
 	fresh := c10Run(prog, doc)
 	var sink vh.Out
@@ -108,4 +117,52 @@ func VHC10Residue() {
 	after := c10Run(prog, doc)
 	vh.Reach("residue compared")
 	vh.Assert(after.k == fresh.k && after.out == fresh.out && after.json == fresh.json, "C10: a run after unrelated earlier runs equals the same run on fresh state")
+}
+
+// VHC10Chunking: the results are a function of the input BYTES: the same stream handed
+// over in two different partitions into read calls gives the same standard output, JSON
+// output and outcome (also when the stream starts with bytes that are not JSON, such as
+// a byte-order mark arriving in one piece or in two).
+func VHC10Chunking() {
+	b := vh.Choose("b", 2) == 1
+	doc := map[string]any{"a": b, "k": []any{1.0, "x"}}
+	g := vh.Bytes("g", 3)
+	vh.Assume(vh.Not(vh.OneOf(g[0], " \t\n\r\"{[]}-0123456789tfn")))
+	var items func() []any
+	switch vh.Choose("stream", 5) {
+	case 0:
+		items = func() []any { return []any{doc, doc} }
+	case 1: // three non-JSON bytes in front, delivered as 1 + 2 bytes or together, depending on the packing
+		items = func() []any {
+			return []any{vh.Fault{Kind: vh.Garbage, Text: g[:1]}, vh.Fault{Kind: vh.Garbage, Text: g[1:]}, doc}
+		}
+	case 2:
+		items = func() []any { return []any{doc, vh.Fault{Kind: vh.Garbage, Text: g[:2]}, doc} }
+	case 3:
+		items = func() []any { return []any{doc, doc, vh.Fault{Kind: vh.Truncated, Text: "{\"t\": 1, \"b\":"}} }
+	case 4:
+		items = func() []any { return []any{doc, vh.Fault{Kind: vh.StrayClose, Text: "]"}, doc} }
+	}
+	prog := "{ print $.a, $.k; n++ }\nEND { print n }"
+	run := func(mode int) c10Result {
+		var out vh.Out
+		ev, err := lang.EvalProgram(prog, []lang.InputFile{{Name: "f", Reader: &vh.DocStream{Items: items(), Mode: mode}}}, nil, &out, false)
+		r := c10Result{out: out.String(), k: legal(err, "EvalProgram")}
+		if err == nil {
+			j, jerr := ev.GetRootJson()
+			r.json = j
+			if jerr != nil {
+				r.jk = 1
+			}
+		}
+		return r
+	}
+	m1, m2 := vh.Choose("m1", 5), vh.Choose("m2", 5)
+	if m2 <= m1 {
+		return
+	}
+	r1, r2 := run(m1), run(m2)
+	vh.Reach("packings compared")
+	vh.Assert(r1.k == r2.k && r1.jk == r2.jk, "C10: the outcome does not depend on how the input bytes are split into reads")
+	vh.Assert(r1.out == r2.out && r1.json == r2.json, "C10: the output does not depend on how the input bytes are split into reads")
 }
